@@ -414,7 +414,8 @@ def will_scenario(i, m):
         s.add("OPEN %s %s" % (n, l))
         s.add("SEND %s connect;id=%s;ka=60;clean=1 subscribe;pkid=1;f=%s;q=%d" % (n, hx(n), hx(f), m["subq"]))
         s.add("RECV %s 2 %d" % (n, T), "sub-" + n)
-    c = "connect;id=%s;ka=%d;clean=1" % (hx("dev1"), 1 if m["end"] == "keepalive" else 60)
+    # anon: empty client id (clean session): the broker assigns "rumqtt-<uuid>" and must publish the will under it
+    c = "connect;id=%s;ka=%d;clean=1" % (hx("" if m.get("anon") else "dev1"), 1 if m["end"] == "keepalive" else 60)
     if m["will"] != "none":
         c += ";wt=%s;wm=%s;wq=%d;wr=%d" % (hx(WILL_T), hx(WILL_P), {"q0": 0, "q1": 1, "retained": 1}[m["will"]], 1 if m["will"] == "retained" else 0)
     s.add("OPEN c " + ("L4" if lv == "v4" else "L5"))
@@ -474,9 +475,19 @@ def gen_wills(ctx, rng):
                     variants = [(0, 0), (1, 1), (0, 1), (1, 0)] if full else [(rng.below(2), 1 if (nsubs == 0 or will == "retained") else rng.below(2))]
                     for (traffic, late) in variants:
                         ms.append(dict(lv=lv, will=will, end=end, nsubs=nsubs, traffic=traffic, late=late, subq=rng.below(3)))
-    ka = [("v4", "q0", 1), ("v5", "retained", 2), ("v4", "none", 1)] + ([("v5", "q1", 1), ("v4", "retained", 0), ("v5", "none", 2)] if full else [])
-    for (lv, will, nsubs) in ka:
-        ms.append(dict(lv=lv, will=will, end="keepalive", nsubs=nsubs, traffic=0, late=1, subq=0))
+    # the anonymous client (empty client id, the broker assigns one): every end kind, v4 and v5
+    for lv in ("v4", "v5"):
+        for will in (("q0", "q1", "retained", "none") if full else ("q1", "retained")):
+            for end in ENDS:
+                if end == "keepalive":
+                    continue
+                for nsubs in ((0, 1, 2) if full else (1 + rng.below(2),)):
+                    ms.append(dict(lv=lv, will=will, end=end, nsubs=nsubs, traffic=rng.below(2), late=1 if will == "retained" else rng.below(2),
+                                   subq=rng.below(3), anon=1))
+    ka = [("v4", "q0", 1, 0), ("v5", "retained", 2, 0), ("v4", "none", 1, 0), ("v4", "q1", 1, 1), ("v5", "q0", 2, 1)] + (
+        [("v5", "q1", 1, 0), ("v4", "retained", 0, 0), ("v5", "none", 2, 0), ("v5", "retained", 1, 1), ("v4", "none", 1, 1)] if full else [])
+    for (lv, will, nsubs, anon) in ka:
+        ms.append(dict(lv=lv, will=will, end="keepalive", nsubs=nsubs, traffic=0, late=1, subq=0, anon=anon))
     return [will_scenario(i, m) for i, m in enumerate(ms)]
 
 
@@ -499,13 +510,17 @@ def check_wills(ctx, scns=None):
         scns = corpus_scenarios("wills") + gen_wills(ctx, rng)
         run_scenarios(iexe, scns)
     model = model_answers(mexe, ["EPI %s timeout" % END_CLASS[s.meta["end"]] for s in scns])
+    gen_id = "rumqtt-0123456789abcdef0123456789abcdef"
+    ids = model_answers(mexe, ["IDS %s %s" % (hx("" if s.meta.get("anon") else "dev1"), hx(gen_id)) for s in scns])
     viol, corr, hist, nontriv = [], [], {}, set()
-    for s, md in zip(scns, model):
+    for s, md, idl in zip(scns, model, ids):
         m = s.meta
+        idm = dict(kv.split("=") for kv in idl.split())
         if s.out is None:
             corr.append(("correspondence-only: the stack driver did not answer scenario %s" % s.name, s.replay_text("driver gave no output")))
             continue
-        model_w = md.endswith("w=1")
+        # model: PublishWill is sent, and names the client by the id its will is registered under
+        model_w = md.endswith("w=1") and idm["will"] == idm["reg"]
         fire = m["will"] != "none" and m["end"] not in DISC_FIRST     # the property
         exp = 1 if (fire and model_w) else 0
         bad, fence_bad = [], []
@@ -529,20 +544,29 @@ def check_wills(ctx, scns=None):
                 bad.append("late subscriber got the retained will without the retain flag")
         connack = parse_recv(s.get("connack"))
         admitted = bool(connack) and connack[0][0] == "connack" and connack[0][1].get("code") == "Success"
+        id_bad = None
+        if admitted and m["lv"] == "v5":
+            # MQTT 5 tells the client the id it was given: assigned iff the model says so
+            acid = connack[0][1].get("acid")
+            if (acid is not None) != (idm["assigned"] != "none") or (acid is not None and not unhx(acid).startswith(b"rumqtt-")):
+                id_bad = "CONNACK assigned client id %r, model assigned=%s" % (acid, idm["assigned"] != "none")
         join = s.get("join")
-        key = "%s/%s->%s" % (m["end"], "will" if m["will"] != "none" else "nowill", "fired" if exp else "silent")
+        key = "%s%s/%s->%s" % ("anon:" if m.get("anon") else "", m["end"], "will" if m["will"] != "none" else "nowill", "fired" if exp else "silent")
         hist[key] = hist.get(key, 0) + 1
         if m["will"] != "none":
-            nontriv.add((m["lv"], m["will"], m["end"], m["nsubs"], m["traffic"], m["late"]))
+            nontriv.add((m["lv"], m["will"], m["end"], m["nsubs"], m["traffic"], m["late"], m.get("anon", 0)))
         if bad and admitted:
-            viol.append(("last will: %s client %s a will, connection ended by %s: %s (%s, %s)" % (
-                m["lv"], "with" if m["will"] != "none" else "without", m["end"], "; ".join(bad), join, s.get("END")),
+            viol.append(("last will: %s client (%s) %s a will, connection ended by %s: %s (%s, %s)" % (
+                m["lv"], "empty client id, broker-assigned" if m.get("anon") else "client id dev1",
+                "with" if m["will"] != "none" else "without", m["end"], "; ".join(bad), join, s.get("END")),
                 s.replay_text("will delivered a wrong number of times")))
+        elif id_bad:
+            corr.append(("correspondence-only: will scenario %s: %s" % (s.name, id_bad), s.replay_text("assigned client id differs from Stack.Model.remote_ids")))
         elif fence_bad or not admitted or join != "JOIN done" or "panics=- stuck=-" not in s.get("END"):
             corr.append(("correspondence-only: will scenario %s: fences broken at %s, admitted=%s, %s, %s" % (s.name, fence_bad, admitted, join, s.get("END")),
                          s.replay_text("scenario did not run as designed (task panicked / stuck / fence lost)")))
     ctx.cov["stack_wills"] = {"scenarios": len(scns), "distinct_nontrivial": len(nontriv),
-                              "rule": "non-trivial = client registered a will; distinct (version, will kind, end kind, subscribers, traffic, late subscriber)",
+                              "rule": "non-trivial = client registered a will; distinct (version, will kind, end kind, subscribers, traffic, late subscriber, named / anonymous client)",
                               "histogram": hist, "property_violations": len(viol), "correspondence_divergences": len(corr)}
     return viol + corr
 
@@ -767,6 +791,159 @@ def check_cross_one(s):
     return bad, harness
 
 
+# ------------------------------------------------------------------ TOPIC ALIASES (C20, "same topic")
+
+AL = {"A": "al/a", "B": "al/b", "C": "al/c/deep"}
+# steps: (topic key or "" for an empty topic, alias index or None) | "reconnect"
+ALIAS_SEQS = {
+    "set-use": [("A", 0), ("", 0), ("", 0)],
+    "remap": [("A", 0), ("B", 0), ("", 0)],
+    "set-use-remap-use": [("A", 0), ("", 0), ("B", 0), ("", 0), ("C", 0), ("", 0)],
+    "remap-back": [("A", 0), ("B", 0), ("A", 0), ("", 0)],
+    "remap-same": [("A", 0), ("A", 0), ("", 0), ("B", 0), ("B", 0), ("", 0)],
+    "two-swapped": [("A", 0), ("B", 1), ("", 0), ("", 1), ("B", 0), ("A", 1), ("", 0), ("", 1)],
+    "two-one-remapped": [("A", 0), ("B", 1), ("C", 0), ("", 1), ("", 0)],
+    "plain-between": [("A", 0), ("B", None), ("", 0), ("B", 0), ("A", None), ("", 0)],
+    "unknown-alias": [("A", 0), ("", 1)],
+    "reconnect-forgets": [("A", 0), ("", 0), "reconnect", ("", 0)],
+    "reconnect-remap": [("A", 0), "reconnect", ("B", 0), ("", 0)],
+}
+ALIAS_VALUES = [(1, 2), (2, 1), (7, 4096), (4096, 4095)]
+
+
+def alias_expected(m):
+    """the MQTT 5 rule: per connection alias -> topic, set (or re-set) by a publish that names a
+    topic, used by a publish with an empty topic; an unknown alias is a protocol error that ends
+    the connection.  -> (delivered [(topic, payload)], index of the rejected step or None)"""
+    amap, out = {}, []
+    for j, st in enumerate(ALIAS_SEQS[m["seq"]]):
+        if st == "reconnect":
+            amap = {}
+            continue
+        tk, ai = st
+        pay = ("m%d" % j).encode()
+        if tk:
+            if ai is not None:
+                amap[ai] = AL[tk]
+            out.append((AL[tk], pay))
+        else:
+            if ai not in amap:
+                return out, j
+            out.append((amap[ai], pay))
+    return out, None
+
+
+def alias_scenario(i, m):
+    s = Scn("alias", "alias-%d" % i, prop="C20", **m)
+    q = m["q"]
+    vals = ALIAS_VALUES[m["vals"]]
+    s.add("LISTEN L4 v4").add("LISTEN L5 v5")
+    s.add("OPEN h L4")
+    s.add("SEND h connect;id=%s;ka=60;clean=1" % hx("helper"))
+    s.add("RECV h 1 %d" % T)
+    for (n, l) in (("s4", "L4"), ("s5", "L5")):
+        s.add("OPEN %s %s" % (n, l))
+        tam = ";tam=%d" % m["stam"] if (n == "s5" and m["stam"]) else ""
+        s.add("SEND %s connect;id=%s;ka=60;clean=1%s subscribe;pkid=1;f=%s;q=%d" % (n, hx(n), tam, hx("al/#"), m["subq"]))
+        s.add("RECV %s 2 %d" % (n, T), "sub-" + n)
+    exp, rej = alias_expected(m)
+    conn, gen = "p0", 0
+    s.add("OPEN p0 L5")
+    s.add("SEND p0 connect;id=%s;ka=60;clean=1" % hx("pub"))
+    s.add("RECV p0 1 %d" % T, "pconn0")
+    nacks = 0
+    for j, st in enumerate(ALIAS_SEQS[m["seq"]]):
+        if st == "reconnect":
+            s.add("SEND %s disconnect" % conn)
+            s.add("EOF %s" % conn)
+            s.add("JOIN %s %d" % (conn, T))
+            gen += 1
+            conn = "p%d" % gen
+            s.add("OPEN %s L5" % conn)
+            s.add("SEND %s connect;id=%s;ka=60;clean=1" % (conn, hx("pub")))
+            s.add("RECV %s 1 %d" % (conn, T), "pconn%d" % gen)
+            nacks = 0
+            continue
+        tk, ai = st
+        item = "publish;t=%s;p=%s;q=%d;pkid=%d" % (hx(AL[tk]) if tk else "-", hx("m%d" % j), q, (j + 1) if q else 0)
+        if ai is not None:
+            item += ";alias=%d" % vals[ai]
+        s.add("SEND %s %s" % (conn, item))
+        if rej == j:
+            break
+        if q:
+            nacks += 1
+    if rej is None:
+        # same link, so the marker is behind every publish of the sequence
+        s.add("SEND %s publish;t=%s;p=%s;q=0" % (conn, hx("al/mark"), hx(MARK)))
+        if q:
+            s.add("RECV %s %d %d" % (conn, nacks, T), "packs")
+    else:
+        s.add("RECV %s %d %d" % (conn, nacks + 2, T), "pend")
+        s.add("JOIN %s %d" % (conn, T), "pjoin")
+        s.add("SEND h publish;t=%s;p=%s;q=0" % (hx("al/mark"), hx(MARK)))
+    for n in ("s4", "s5"):
+        s.add("UNTIL %s %s %d" % (n, hx(MARK), T), "fence-" + n)
+    return s.end()
+
+
+def gen_alias(ctx, rng):
+    ms = []
+    for seq in ALIAS_SEQS:
+        combos = [(q, vals, stam) for q in (0, 1) for vals in range(len(ALIAS_VALUES)) for stam in (0, 5)]
+        if not ctx.thorough():
+            combos = [(0, 0, 0), (1, 1, 5)] + [combos[rng.below(len(combos))] for _ in range(2)]
+        for (q, vals, stam) in combos:
+            ms.append(dict(seq=seq, q=q, vals=vals, stam=stam, subq=rng.below(2)))
+    return [alias_scenario(i, m) for i, m in enumerate(ms)]
+
+
+def check_alias_one(s):
+    """-> (property failures, harness problems): every subscriber, v4 and v5, receives every
+    message of the sequence under the topic the publisher's alias stood for at that moment"""
+    m = s.meta
+    bad, harness = [], []
+    end = s.get("END")
+    if "panics=-" not in end:
+        bad.append("a connection task panicked: " + end)
+    if "stuck=-" not in end:
+        harness.append("task stuck: " + end)
+    exp, rej = alias_expected(m)
+    for n in ("s4", "s5"):
+        if [k for k, _ in parse_recv(s.get("sub-" + n))] != ["connack", "suback"]:
+            harness.append("%s did not get CONNACK+SUBACK: %s" % (n, s.get("sub-" + n)))
+        items = parse_recv(s.get("fence-" + n))
+        if not items or items[-1][0] != "publish" or unhx(items[-1][1].get("p", "-")) != MARK.encode():
+            bad.append("%s: fence not reached: %s" % (n, s.get("fence-" + n)[:200]))
+            continue
+        got, rmap = [], {}
+        for k, d in items[:-1] + [items[-1]]:
+            if k != "publish":
+                bad.append("%s received a %s" % (n, k))
+                continue
+            t = unhx(d.get("t", "-")).decode("utf-8", "replace")
+            if "alias" in d:      # broker -> subscriber alias (the subscriber announced topic_alias_max)
+                if n == "s4":
+                    bad.append("s4 (3.1.1) received a topic alias")
+                if t:
+                    rmap[d["alias"]] = t
+                else:
+                    t = rmap.get(d["alias"], "<unknown alias %s>" % d["alias"])
+            elif not t:
+                t = "<empty topic>"
+            got.append((t, unhx(d.get("p", "-"))))
+        got = got[:-1]
+        if got != exp:
+            k = next((i for i, (a, b) in enumerate(zip(got, exp)) if a != b), min(len(got), len(exp)))
+            bad.append("%s: sequence %s: message %d delivered as %s, expected %s (received %d, expected %d messages)" % (
+                n, m["seq"], k, got[k] if k < len(got) else "nothing", exp[k] if k < len(exp) else "nothing", len(got), len(exp)))
+    if rej is not None:
+        ks = [k for k, _ in parse_recv(s.get("pend"))]
+        if "EOF" not in ks or "BAD" in ks:
+            bad.append("publisher using an unknown topic alias was not disconnected cleanly: %s" % s.get("pend")[:200])
+    return bad, harness
+
+
 WRITE_VARIANTS = [(v, k, p, x) for v in ("v4", "v5") for k in KINDS for p in (0, 1) for x in (0, 1)]
 
 
@@ -865,7 +1042,7 @@ def run(ctx):
         elif "v4=Ok v5=Ok" not in a:
             n_corr.append("to_packet %s -> %s" % (x, a))
     # 2. end-to-end cross-version scenarios (corpus first)
-    scns = corpus_scenarios("cross") + gen_cross(ctx, rng)
+    scns = corpus_scenarios("cross") + corpus_scenarios("alias") + gen_cross(ctx, rng) + gen_alias(ctx, rng)
     run_scenarios(iexe, scns)
     fails, harness = [], []
     hist, nontriv = {}, set()
@@ -873,8 +1050,18 @@ def run(ctx):
         if s.out is None:
             harness.append((s, ["driver gave no output"]))
             continue
-        bad, h = check_cross_one(s)
         m = s.meta
+        if s.group == "alias":
+            bad, h = check_alias_one(s)
+            key = "alias %s" % m["seq"]
+            hist[key] = hist.get(key, 0) + 1
+            nontriv.add(("alias", m["seq"], m["q"], m["vals"], m["stam"]))
+            if bad:
+                fails.append((s, bad))
+            elif h:
+                harness.append((s, h))
+            continue
+        bad, h = check_cross_one(s)
         key = "%s q%s %dprops%s%s" % (m["pv"], m["q"], len(m["props"]), " sid" if "sid" in m["props"] else "", " " + m["boundary"] if m.get("boundary") else "")
         hist[key] = hist.get(key, 0) + 1
         if m["pv"] == "v5" and m["props"]:
@@ -889,10 +1076,11 @@ def run(ctx):
     ctx.cov["distinct_nontrivial"] = len(nontriv)
     ctx.cov["rule"] = ("each scenario: v4 and v5 subscriber on x/#, one publisher (v4, or v5 with a subset of the 8 PUBLISH properties), QoS 0-2 with the full ack "
                        "exchange on both sides, PINGREQ/UNSUBSCRIBE at the end; %s. non-trivial = v5 publisher with a non-empty property subset; distinct (qos, subset, subscription-id) counted. "
+                       "Topic-alias scenarios: one v5 publisher runs a sequence over its aliases (%s; alias values %s; QoS 0/1; v5 subscriber with and without topic_alias_max), every message must reach the v4 and the v5 subscriber under the topic the alias stood for at that moment. "
                        "Boundary scenarios: v5 subscription identifiers %s; property block of the forwarded PUBLISH and its remaining length (by payload and by topic size) exactly %s bytes at the v4 / v5 subscriber. "
                        "Plus the real Protocol::write of V4 and V5 on every (packet kind, properties?, reason variant) against Stack.Model.has_arm, and on the same boundaries (subscription identifier, property block of PUBLISH and of every ack/CONNACK/DISCONNECT via a reason string, remaining length), decoded back with rumqttc." % (
                            "all 256 subsets x 3 QoS x subscription-id on/off" if ctx.thorough() else "all 256 subsets, one seeded QoS each (3 QoS for empty, full, full-minus-sid and each singleton)",
-                           SID_BOUNDS, BOUNDS))
+                           ", ".join(ALIAS_SEQS), ALIAS_VALUES, SID_BOUNDS, BOUNDS))
     ctx.cov["exhaustive"] = True
     ctx.cov["exhaustive_part"] = "the 2^8 subsets of the PUBLISH properties"
     ctx.cov["scenario_histogram"] = hist
@@ -900,7 +1088,7 @@ def run(ctx):
     ctx.cov["samples"] = [" ; ".join(scns[i].lines[8:12]) for i in (0, len(scns) // 2, len(scns) - 1)]
     ctx.log("cross scenarios=%d failures=%d harness-problems=%d dispatch: prop=%d corr=%d notif=%d" % (len(scns), len(fails), len(harness), len(d_prop), len(d_corr), len(n_corr)))
     if fails:
-        fails.sort(key=lambda x: (len(x[0].meta["props"]), x[0].meta["q"]))
+        fails.sort(key=lambda x: (len(x[0].meta.get("props", ())), len(x[0].lines), x[0].meta["q"]))
         s, bad = fails[0]
         ctx.violation("input", s.replay_text("; ".join(bad)), True, "%s: %s (%d failing scenarios)" % (s.name, "; ".join(bad)[:400], len(fails)))
     elif d_prop:
@@ -975,8 +1163,10 @@ def relabel(s):
             m = dict(s.meta)
             m["props"] = tuple(m.get("props", ()))
             t = cross_scenario(0, {k: m[k] for k in ("pv", "q", "props", "subid", "psize", "cdlen", "tlen") if k in m})
+        elif s.group == "alias":
+            t = alias_scenario(0, {k: s.meta[k] for k in ("seq", "q", "vals", "stam", "subq")})
         elif s.group == "wills":
-            t = will_scenario(0, {k: s.meta[k] for k in ("lv", "will", "end", "nsubs", "traffic", "late", "subq")})
+            t = will_scenario(0, {k: s.meta[k] for k in ("lv", "will", "end", "nsubs", "traffic", "late", "subq", "anon") if k in s.meta})
         elif s.group == "admission":
             m = {k: s.meta[k] for k in ("lv", "first", "level_ok", "config", "creds", "cidk", "ka")}
             m["cid"], m["clean"] = CIDS[m["cidk"]] if m["cidk"] in CIDS else ("", 1)
@@ -1024,6 +1214,9 @@ def replay(ctx, path):
         msgs = []
         if s.group == "cross":
             bad, h = check_cross_one(s)
+            msgs = bad + h
+        elif s.group == "alias":
+            bad, h = check_alias_one(s)
             msgs = bad + h
         elif s.group == "wills":
             msgs = [t for t, _ in check_wills(C(), [s])]
